@@ -88,17 +88,18 @@ StanzaDec == {"marshal/unmarshal", "marshal/new", "wrap/decode", "wrap/new", "wr
               "wrapbytes/new", "start/new"}
 C13ReqEnc(ty) ==
   CASE ty \in StanzaTypes -> {"marshal", "wrap", "wrapbytes"}
-    [] ty = "iq.help" -> {"wrap", "wrapbytes", "result", "error", "errorbytes"}
-    [] ty \in HelpTypes -> {"wrap", "wrapbytes", "error", "errorbytes"}
+    [] ty = "iq.help" -> {"wrap", "wrapbytes", "result", "error", "errorbytes", "errorecho"}
+    [] ty \in HelpTypes -> {"wrap", "wrapbytes", "error", "errorbytes", "errorecho"}
     [] ty = "stanzaerror" -> {"marshal", "tokenreader", "trbytes", "writexml", "wrapapp", "wrapappbytes"}
     [] ty = "streamerror" -> {"marshal", "tokenreader", "trbytes", "writexml"}
     [] ty = "encode.pair" -> {"outer/marshal", "outer/session", "inner/marshal", "inner/session"}
 C13ReqDec(ty) ==
   CASE ty \in StanzaTypes -> StanzaDec
     [] ty = "iq.help" -> {"wrap/new", "wrap/inner", "wrapbytes/inner", "result/new", "result/inner", "error/new",
-                          "error/unmarshalerror", "error/unmarshaliqerror", "errorbytes/unmarshalerror"}
+                          "error/unmarshalerror", "error/unmarshaliqerror", "errorbytes/unmarshalerror",
+                          "errorecho/unmarshalerror", "errorecho/unmarshaliqerror", "errorecho/inner"}
     [] ty \in HelpTypes -> {"wrap/new", "wrap/inner", "wrapbytes/inner", "error/new", "error/unmarshalerror",
-                            "errorbytes/unmarshalerror"}
+                            "errorbytes/unmarshalerror", "errorecho/unmarshalerror", "errorecho/inner"}
     [] ty = "stanzaerror" -> {"marshal/unmarshal", "tokenreader/decode", "trbytes/unmarshal", "writexml/unmarshal",
                               "wrapapp/decode", "wrapapp/unmarshalerror", "wrapappbytes/unmarshal"}
     [] ty = "streamerror" -> {"marshal/unmarshal", "tokenreader/decode", "trbytes/unmarshal", "writexml/unmarshal"}
